@@ -445,6 +445,11 @@ def c09(ctx):
     pipe_judge(ctx, vlib.read_ndjson(rnd), "B-pipe", C09_CLAUSES)
     vlib.harness(["gen", "buffered", ctx.seed + 11, 300 if q else 3000, rnd])
     buffered_judge(ctx, vlib.read_ndjson(rnd), "B-buffered", C09_CLAUSES)
+    # long upstream, idle consumer: look-ahead that grows with the input length (e.g. an unbounded channel) shows here,
+    # whatever the constant of the implementation is
+    idle = [{"mode": "free", "W": w, "N": 800, "seed": 21 + w, "slow": 0.0, "drop_after": k, "idle_ms": 80}
+            for w in ((1, 4) if q else (1, 2, 3, 4, 8)) for k in ((0, 6) if q else (0, 1, 6, 30))]
+    pipe_judge(ctx, idle, "B-idle", C09_CLAUSES, mech=False)
     # many threads: the hook must already be in place when the first worker starts
     combos = [(1, 4, 0), (2, 5, 2), (4, 6, 5), (16, 64, 0), (32, 64, 0), (64, 200, 1)] if q else [(64, 300, 0), (48, 100, 0)] + [(w, n, f) for w in (1, 2, 4) for n in (3, 8) for f in (0, n // 2, n - 1)]
     # (W, N, fail, delay before the panic in ms, prior): the failing item is still being processed while other workers
